@@ -99,8 +99,11 @@ Lemma mem_TEnum_some w l vo vs idx xs :
              (bufset (repeat None (N.to_nat (l_size l))) 0 (somes (le (N.to_nat w) idx))))
         None vs vo (N.to_nat idx).
 Proof. reflexivity. Qed.
-Lemma mem_TEnum_none l vo vs x : mem (TEnum None l vo vs) x = Some [].
-Proof. destruct x; reflexivity. Qed.
+Lemma mem_TEnum_none l vo vs idx xs :
+  mem (TEnum None l vo vs) (VVar idx xs) =
+  pick3 (fun vd offs => mflds mem (vd_fields vd) offs xs (repeat None (N.to_nat (l_size l))))
+        None vs vo (N.to_nat idx).
+Proof. reflexivity. Qed.
 Lemma mem_TString x : mem TString x = Some []. Proof. destruct x; reflexivity. Qed.
 Lemma mem_TVec t x : mem (TVec t) x = Some []. Proof. destruct x; reflexivity. Qed.
 Lemma mem_TSeq t x : mem (TSeq t) x = Some []. Proof. destruct x; reflexivity. Qed.
@@ -179,7 +182,11 @@ Lemma wf_layout_TEnum repr l vo vs :
                        Nat.eqb (length (fst p)) (length (vd_fields (snd p)))
                        && ranges_ok (l_size l) w (zip_ranges (fst p) (vd_fields (snd p))))
                     (combine vo vs)
-     | None => true
+     | None =>
+         forallb (fun p : list N * vdef =>
+                       Nat.eqb (length (fst p)) (length (vd_fields (snd p)))
+                       && ranges_ok (l_size l) 0 (zip_ranges (fst p) (vd_fields (snd p))))
+                    (combine vo vs)
      end.
 Proof. reflexivity. Qed.
 Lemma no_mixed_TTuple l ts : no_mixed_enum (TTuple l ts) = forallb no_mixed_enum ts.
@@ -719,25 +726,33 @@ Proof.
                 (repeat_length _ _)) as (its & _ & Hm & Hl & _).
     rewrite mem_TStruct. eexists. split; [exact Hm|]. cbn [size_of]. split; [lia|intros; exact Hl].
   - (* TEnum *)
-    destruct repr as [w|]; [|rewrite mem_TEnum_none; exists []; split; [reflexivity|]; split; [cbn; lia|discriminate]].
-    destruct x; try discriminate. rewrite has_ty_TEnum in Hh. rewrite wf_layout_TEnum in Hwl.
+    destruct x; try (destruct repr; discriminate). rewrite has_ty_TEnum in Hh. rewrite wf_layout_TEnum in Hwl.
     apply andb_true_iff in Hh as [_ Hh]. rewrite pickg_nth in Hh.
     destruct (nth_error vs (N.to_nat idx)) as [vd|] eqn:Hn; [|discriminate].
     apply andb_true_iff in Hwl as [Hwl Hr]. apply andb_true_iff in Hwl as [Hwl Hlen].
-    apply Nat.eqb_eq in Hlen. apply andb_true_iff in Hr as [Hw Hr].
+    apply Nat.eqb_eq in Hlen.
     destruct (nth_error_same_length vs vo _ vd Hlen Hn) as (offs & Ho).
-    rewrite forallb_forall in Hr. specialize (Hr _ (nth_error_combine _ _ _ _ _ Ho Hn)).
-    cbn [fst snd] in Hr. apply andb_true_iff in Hr as [Hl2 Hr]. apply Nat.eqb_eq in Hl2.
     rewrite forallb_forall in Hwl. specialize (Hwl vd (nth_error_In _ _ Hn)).
     unfold Pvs in H. rewrite Forall_forall in H. specialize (H vd (nth_error_In _ _ Hn)).
-    assert (Hwle : w <= l_size l).
-    { destruct (forallb fieldless vs); [apply N.eqb_eq in Hw; lia|apply N.leb_le in Hw; exact Hw]. }
-    destruct (mflds_shape (vd_fields vd) (l_size l) w H Hwl offs l0
-                (bufset (repeat None (N.to_nat (l_size l))) 0 (somes (le (N.to_nat w) idx))) Hl2 Hh Hr)
-      as (its & _ & Hm & Hl & _).
-    { rewrite bufset_length; [apply repeat_length|]. rewrite somes_length, le_length, repeat_length. lia. }
-    rewrite mem_TEnum_some, pick3_nth, Hn, Ho. eexists. split; [exact Hm|].
-    cbn [size_of]. split; [lia|intros; exact Hl].
+    destruct repr as [w|].
+    + apply andb_true_iff in Hr as [Hw Hr].
+      rewrite forallb_forall in Hr. specialize (Hr _ (nth_error_combine _ _ _ _ _ Ho Hn)).
+      cbn [fst snd] in Hr. apply andb_true_iff in Hr as [Hl2 Hr]. apply Nat.eqb_eq in Hl2.
+      assert (Hwle : w <= l_size l).
+      { destruct (forallb fieldless vs); [apply N.eqb_eq in Hw; lia|apply N.leb_le in Hw; exact Hw]. }
+      destruct (mflds_shape (vd_fields vd) (l_size l) w H Hwl offs l0
+                  (bufset (repeat None (N.to_nat (l_size l))) 0 (somes (le (N.to_nat w) idx))) Hl2 Hh Hr)
+        as (its & _ & Hm & Hl & _).
+      { rewrite bufset_length; [apply repeat_length|]. rewrite somes_length, le_length, repeat_length. lia. }
+      rewrite mem_TEnum_some, pick3_nth, Hn, Ho. eexists. split; [exact Hm|].
+      cbn [size_of]. split; [lia|intros; exact Hl].
+    + rewrite forallb_forall in Hr. specialize (Hr _ (nth_error_combine _ _ _ _ _ Ho Hn)).
+      cbn [fst snd] in Hr. apply andb_true_iff in Hr as [Hl2 Hr]. apply Nat.eqb_eq in Hl2.
+      destruct (mflds_shape (vd_fields vd) (l_size l) 0 H Hwl offs l0
+                  (repeat None (N.to_nat (l_size l))) Hl2 Hh Hr (repeat_length _ _))
+        as (its & _ & Hm & Hl & _).
+      rewrite mem_TEnum_none, pick3_nth, Hn, Ho. eexists. split; [exact Hm|].
+      cbn [size_of]. split; [lia|intros; exact Hl].
 Qed.
 
 (* 1. the image of a packed type has exactly size_of bytes *)
@@ -1009,9 +1024,11 @@ Proof.
       { unfold wf_fd in Hwt1. apply andb_true_iff in Hwt1 as [Hwt1 _]. apply andb_true_iff in Hwt1 as [Hwt1 _]. exact Hwt1. }
       pose proof (HP1 y a Hpk Hwt' Hz1 Hwl1 Hnm1 Hh1 Ha) as Hm.
       pose proof (mem_length_packed v _ _ _ Hpk Hwl1 Hnm1 Hh1 Hm) as Hlm.
-      rewrite Hm. rewrite <- Hlen at 1. rewrite bufset_tile by lia.
-      replace (N.to_nat total - N.to_nat pos - length (somes a))%nat
-        with (N.to_nat total - N.to_nat (pos + size_of (fd_ty f)))%nat by lia.
+      rewrite Hm.
+      assert (Hb : bufset (pre ++ repeat None (N.to_nat total - N.to_nat pos)) (N.to_nat pos) (somes a)
+                   = (pre ++ somes a) ++ repeat None (N.to_nat total - N.to_nat (pos + size_of (fd_ty f)))).
+      { rewrite <- Hlen. rewrite bufset_tile by lia. do 2 f_equal. lia. }
+      rewrite Hb.
       rewrite (IH HP2 HF3 Hwt2 Hz2 Hwl2 Hnm2 ro ry (pre ++ somes a) (pos + size_of (fd_ty f)) B' Hh2 HB' Hc2).
       * rewrite somes_app, app_assoc. reflexivity.
       * rewrite app_length. lia.
@@ -1069,3 +1086,857 @@ Proof.
     + rewrite somes_app, app_assoc. reflexivity.
     + rewrite app_length. lia.
 Qed.
+
+Lemma packed_TTuple v l ts :
+  packed v (TTuple l ts) =
+  match ts, l_offs l with
+  | [t1], [o0] => (o0 =? 0) && (size_of t1 =? l_size l) && packed v t1
+  | [t1; t2], o0 :: _ => (o0 =? 0) && (size_of t1 + size_of t2 =? l_size l) && packed v t1 && packed v t2
+  | [t1; t2; t3], o0 :: o1 :: _ =>
+      (o0 =? 0) && (o1 =? size_of t1) && (size_of t1 + size_of t2 + size_of t3 =? l_size l)
+      && packed v t1 && packed v t2 && packed v t3
+  | [t1; t2; t3; t4], o0 :: o1 :: o2 :: _ =>
+      (o0 =? 0) && (o1 =? size_of t1) && (o2 =? size_of t1 + size_of t2)
+      && (size_of t1 + size_of t2 + size_of t3 + size_of t4 =? l_size l)
+      && packed v t1 && packed v t2 && packed v t3 && packed v t4
+  | _, _ => false
+  end.
+Proof. reflexivity. Qed.
+
+Lemma disj4_P a b c d e f :
+  (a =? 0) || (b =? 0) || (c <=? d) || (e <=? f) = true -> a = 0 \/ b = 0 \/ c <= d \/ e <= f.
+Proof. rewrite !orb_true_iff, !N.eqb_eq, !N.leb_le. tauto. Qed.
+
+Ltac bsplit := repeat match goal with
+  | H : _ && _ = true |- _ => apply andb_true_iff in H; destruct H
+  | H : (_ =? 0) || (_ =? 0) || (_ <=? _) || (_ <=? _) = true |- _ => apply disj4_P in H
+  | H : (_ =? _) = true |- _ => apply N.eqb_eq in H
+  | H : (_ <=? _) = true |- _ => apply N.leb_le in H
+  | H : true = true |- _ => clear H
+  end.
+
+Lemma tuple_packed_tile v l ts :
+  packed v (TTuple l ts) = true ->
+  Nat.eqb (length (l_offs l)) (length ts) = true ->
+  ranges_ok (l_size l) 0 (combine (l_offs l) (map size_of ts)) = true ->
+  forallb (packed v) ts = true /\ ttile (l_size l) 0 (l_offs l) (map size_of ts).
+Proof.
+  rewrite packed_TTuple, ranges_ok_eq. destruct l as [sz al offs ed]. cbn [l_offs l_size].
+  intros Hp Hlen Hr. apply Nat.eqb_eq in Hlen.
+  destruct ts as [|t1 [|t2 [|t3 [|t4 [|t5 ts]]]]]; try discriminate;
+    destruct offs as [|o0 [|o1 [|o2 [|o3 [|o4 offs]]]]]; cbn [length] in Hlen; try discriminate; try lia.
+  all: cbn [combine map forallb pairwise_b fst snd] in Hr.
+  all: bsplit.
+  all: split; [cbn [forallb]; repeat (apply andb_true_iff; split); solve [assumption|reflexivity]|cbn [ttile map]; lia].
+Qed.
+
+Lemma snd_all v t : SND v t.
+Proof.
+  induction t using ty_ind'; intros x b Hp Hwt Hz Hwl Hnm Hh He.
+  - destruct x; try discriminate. rewrite enc_TInt in He. inversion He; subst. apply mem_TInt.
+  - destruct x; try discriminate. rewrite enc_TBool in He. inversion He; subst. reflexivity.
+  - destruct x; try discriminate. rewrite enc_TChar in He. inversion He; subst. reflexivity.
+  - destruct x; try discriminate. rewrite enc_TF32 in He. inversion He; subst. reflexivity.
+  - destruct x; try discriminate. rewrite enc_TF64 in He. inversion He; subst. reflexivity.
+  - destruct x; try discriminate. rewrite enc_TUnit in He. inversion He; subst. reflexivity.
+  - discriminate.
+  - discriminate.
+  - discriminate.
+  - (* TArray *)
+    destruct x; try discriminate. rewrite has_ty_TArray in Hh.
+    apply andb_true_iff in Hh as [_ H2]. rewrite forallb_forall in H2.
+    rewrite enc_TArray in He. rewrite mem_TArray.
+    change (wf_ty (TArray t n)) with (wf_ty t && (n <? 100000)) in Hwt.
+    apply andb_true_iff in Hwt as [Hwt _].
+    apply (concat_map_sound (enc v t) (mem t) l); [|exact He].
+    intros y Hy b' Hb'. apply IHt; try assumption. apply H2; exact Hy.
+  - discriminate.
+  - discriminate.
+  - discriminate.
+  - (* TCell *)
+    rewrite has_ty_TCell in Hh. rewrite enc_TCell in He. rewrite mem_TCell.
+    apply IHt; assumption.
+  - (* TTuple *)
+    destruct x; try discriminate. rewrite has_ty_TTuple in Hh. rewrite enc_TTuple in He. rewrite mem_TTuple.
+    rewrite wf_ty_TTuple in Hwt. rewrite zst_TTuple in Hz. rewrite wf_layout_TTuple in Hwl.
+    rewrite no_mixed_TTuple in Hnm.
+    apply andb_true_iff in Hwt as [Hwt _]. apply andb_true_iff in Hwt as [Hwt _].
+    apply andb_true_iff in Hwl as [Hwl Hr]. apply andb_true_iff in Hwl as [Hwl Hlen].
+    destruct (tuple_packed_tile v l ts Hp Hlen Hr) as [Hpk Htile].
+    pose proof (mtup_tile v (l_size l) ts H Hpk Hwt Hz Hwl Hnm (l_offs l) l0 [] 0 b Hh He Htile eq_refl) as HT.
+    cbn [app] in HT. change (N.to_nat 0) with 0%nat in HT. rewrite Nat.sub_0_r in HT. exact HT.
+  - (* TStruct *)
+    destruct x; try discriminate. rewrite has_ty_TStruct in Hh. rewrite enc_TStruct in He. rewrite mem_TStruct.
+    pose proof (struct_fld_ok v l fs Hp Hwt) as HF.
+    rewrite packed_TStruct in Hp.
+    apply andb_true_iff in Hp as [Hp _]. apply andb_true_iff in Hp as [Hp _].
+    apply andb_true_iff in Hp as [_ Hchain].
+    rewrite wf_ty_TStruct in Hwt. rewrite zst_TStruct in Hz. rewrite wf_layout_TStruct in Hwl.
+    rewrite no_mixed_TStruct in Hnm.
+    apply andb_true_iff in Hz as [Hz1 Hz2].
+    apply andb_true_iff in Hwl as [Hwl Hr]. apply andb_true_iff in Hwl as [Hwl Hlen].
+    destruct fs as [|f fs].
+    + destruct l0; cbn [hflds] in Hh; try discriminate. cbn [eflds] in He. inversion He; subst.
+      apply N.eqb_eq in Hz2. rewrite Hz2. reflexivity.
+    + destruct (l_offs l) as [|o0 ro] eqn:Eo; [cbn in Hlen; discriminate|].
+      destruct (struct_chain_variant _ _ _ _ Hchain) as [Hvc _].
+      pose proof (flds_tile v (l_size l) (f :: fs) H HF Hwt Hz1 Hwl Hnm (o0 :: ro) l0 [] 0 b Hh He Hvc eq_refl) as HT.
+      cbn [app] in HT. change (N.to_nat 0) with 0%nat in HT. rewrite Nat.sub_0_r in HT. exact HT.
+  - (* TEnum *)
+    destruct repr as [w|]; [|discriminate].
+    destruct x; try discriminate. rewrite has_ty_TEnum in Hh. rewrite enc_TEnum in He.
+    rewrite mem_TEnum_some.
+    apply andb_true_iff in Hh as [_ Hh]. rewrite pickg_nth in Hh, He.
+    destruct (nth_error vs (N.to_nat idx)) as [vd|] eqn:Hn; [|discriminate].
+    pose proof (nth_error_In _ _ Hn) as Hin.
+    pose proof (enum_fld_ok v w l vo vs Hp Hwt vd Hin) as HF.
+    rewrite packed_TEnum_some in Hp.
+    apply andb_true_iff in Hp as [Hp _]. apply andb_true_iff in Hp as [Hp _].
+    apply andb_true_iff in Hp as [_ Hvc].
+    rewrite wf_ty_TEnum in Hwt. apply andb_true_iff in Hwt as [_ Hwt].
+    rewrite forallb_forall in Hwt. specialize (Hwt vd Hin). apply andb_true_iff in Hwt as [Hwt _].
+    rewrite zst_TEnum in Hz. rewrite forallb_forall in Hz. specialize (Hz vd Hin).
+    rewrite no_mixed_TEnum in Hnm. apply andb_true_iff in Hnm as [Hnm Hmix].
+    rewrite forallb_forall in Hnm. specialize (Hnm vd Hin).
+    rewrite wf_layout_TEnum in Hwl.
+    apply andb_true_iff in Hwl as [Hwl Hr]. apply andb_true_iff in Hwl as [Hwl Hlen].
+    apply Nat.eqb_eq in Hlen. apply andb_true_iff in Hr as [Hw _].
+    rewrite forallb_forall in Hwl. specialize (Hwl vd Hin).
+    destruct (nth_error_same_length vs vo _ vd Hlen Hn) as (offs & Ho).
+    unfold Pvs in H. rewrite Forall_forall in H. specialize (H vd Hin).
+    rewrite pick3_nth, Hn, Ho.
+    destruct (in_range (vd_from vd) (vd_to vd) v); [|discriminate].
+    apply bind_ok in He as (B & HB & He). inversion He; subst b.
+    change (dwidth (Some w) (length vs)) with (N.to_nat w).
+    destruct (vchains_nth _ _ _ _ _ _ _ Hvc Ho Hn) as [Hnil|Hchain].
+    + (* field-less variant: every variant is field-less, the enum is its discriminant *)
+      rewrite Hnil in *.
+      assert (Hall : forallb fieldless vs = true).
+      { destruct (forallb fieldless vs); [reflexivity|]. cbn [orb] in Hmix.
+        rewrite forallb_forall in Hmix. specialize (Hmix vd Hin). unfold fieldful in Hmix.
+        rewrite Hnil in Hmix. discriminate. }
+      rewrite Hall in Hw. apply N.eqb_eq in Hw.
+      destruct l0; cbn [hflds] in Hh; try discriminate. cbn [eflds] in HB. inversion HB; subst B.
+      cbn [mflds]. rewrite Hw. rewrite bufset_tile0 by (rewrite somes_length, le_length; lia).
+      rewrite somes_length, le_length, Nat.sub_diag. rewrite !app_nil_r. reflexivity.
+    + pose proof (variant_chain_le _ _ _ _ Hchain) as Hle.
+      rewrite bufset_tile0 by (rewrite somes_length, le_length; lia).
+      rewrite somes_length, le_length.
+      rewrite (flds_tile v (l_size l) (vd_fields vd) H HF Hwt Hz Hwl Hnm offs l0
+                 (somes (le (N.to_nat w) idx)) w B Hh HB Hchain).
+      * rewrite somes_app. reflexivity.
+      * rewrite somes_length, le_length. reflexivity.
+Qed.
+
+(* Counterexamples that force the two extra premises of packed_sound. *)
+Lemma packed_sound_counterexample_closed_normal :
+  let t := TStruct (Lay 1 1 [0] false) [FD (TInt U8) 0 (Some 0) FNormal (VInt 0)] in
+  let x := VRec [VInt 5] in
+  packed 1 t = true /\ wf_layout t = true /\ no_mixed_enum t = true /\ has_ty t x = true
+  /\ enc 1 t x = Ok [] /\ mem t x = Some [Some 5] /\ wf_ty t = false.
+Proof. repeat split; vm_compute; reflexivity. Qed.
+
+Lemma packed_sound_counterexample_empty_struct :
+  let t := TStruct (Lay 1 1 [] false) [] in
+  let x := VRec [] in
+  packed 0 t = true /\ wf_layout t = true /\ no_mixed_enum t = true /\ wf_ty t = true /\ has_ty t x = true
+  /\ enc 0 t x = Ok [] /\ mem t x = Some [None] /\ empty_struct_zst t = false.
+Proof. repeat split; vm_compute; reflexivity. Qed.
+
+Lemma packed_sound_unrestricted_false :
+  ~ (forall v t x b, packed v t = true -> wf_layout t = true -> no_mixed_enum t = true ->
+     has_ty t x = true -> enc v t x = Ok b -> mem t x = Some (somes b)).
+Proof.
+  intros H. destruct packed_sound_counterexample_empty_struct as (H1 & H2 & H3 & _ & H4 & H5 & H6 & _).
+  specialize (H _ _ _ _ H1 H2 H3 H4 H5). rewrite H6 in H. discriminate.
+Qed.
+
+Theorem packed_sound : forall v t x b, packed v t = true -> wf_ty t = true -> empty_struct_zst t = true ->
+  wf_layout t = true -> no_mixed_enum t = true ->
+  has_ty t x = true -> enc v t x = Ok b -> mem t x = Some (somes b).
+Proof. intros v t. apply snd_all. Qed.
+
+(* ------------------------------------------------------------------ *)
+(* 4. Transparency of the implemented serializer. *)
+
+Definition defers (f : fdef) : bool := match deferrable f with Some _ => true | None => false end.
+Definition ndefer (fs : list fdef) : nat := length (filter defers fs).
+
+(* Extra premise of impl_enc_is_enc (see impl_enc_counterexample_tuple_region): a field of a
+   struct or of an enum variant that can take part in a deferred raw region has a packed type
+   (its tuple layouts are tight and in declaration order). *)
+Fixpoint regions_ok (v : N) (t : ty) : bool :=
+  let okf := fun f : fdef => regions_ok v (fd_ty f) && (negb (defers f) || packed v (fd_ty f)) in
+  match t with
+  | TVec t | TSeq t | TOption t | TBox t | TCell t | TArray t _ => regions_ok v t
+  | TResult a b => regions_ok v a && regions_ok v b
+  | TTuple _ ts => forallb (regions_ok v) ts
+  | TStruct _ fs => forallb okf fs
+  | TEnum _ _ _ vs => forallb (fun vd : vdef => forallb okf (vd_fields vd)) vs
+  | _ => true
+  end.
+
+Definition rfield_ok (v : N) (f : fdef) : bool :=
+  regions_ok v (fd_ty f) && (negb (defers f) || packed v (fd_ty f)).
+
+Lemma regions_TTuple v l ts : regions_ok v (TTuple l ts) = forallb (regions_ok v) ts.
+Proof. reflexivity. Qed.
+Lemma regions_TStruct v l fs : regions_ok v (TStruct l fs) = forallb (rfield_ok v) fs.
+Proof. reflexivity. Qed.
+Lemma regions_TEnum v repr l vo vs :
+  regions_ok v (TEnum repr l vo vs) = forallb (fun vd : vdef => forallb (rfield_ok v) (vd_fields vd)) vs.
+Proof. reflexivity. Qed.
+
+Definition IMPL (v : N) (t : ty) : Prop :=
+  forall x b, wf_ty t = true -> empty_struct_zst t = true -> regions_ok v t = true ->
+  wf_layout t = true -> no_mixed_enum t = true ->
+  has_ty t x = true -> enc v t x = Ok b -> impl_enc v t x = Ok (somes b).
+
+Definition fhyp (v : N) (f : fdef) : Prop :=
+  wf_fd f = true /\ empty_struct_zst (fd_ty f) = true /\ regions_ok v (fd_ty f) = true
+  /\ wf_layout (fd_ty f) = true /\ no_mixed_enum (fd_ty f) = true.
+
+Lemma fhyp_intro v fs :
+  forallb wf_fd fs = true -> forallb (fun f => empty_struct_zst (fd_ty f)) fs = true ->
+  forallb (fun f => regions_ok v (fd_ty f)) fs = true ->
+  forallb (fun f => wf_layout (fd_ty f)) fs = true -> forallb (fun f => no_mixed_enum (fd_ty f)) fs = true ->
+  Forall (fhyp v) fs.
+Proof.
+  rewrite !forallb_forall. intros H1 H2 H3 H4 H5. apply Forall_forall. intros f Hf.
+  unfold fhyp. auto 10.
+Qed.
+
+Lemma rfield_split v fs :
+  forallb (rfield_ok v) fs = true ->
+  forallb (fun f => regions_ok v (fd_ty f)) fs = true
+  /\ Forall (fun f => defers f = true -> packed v (fd_ty f) = true) fs.
+Proof.
+  intros H. rewrite forallb_forall in H. split.
+  - apply forallb_forall. intros f Hf. specialize (H f Hf). unfold rfield_ok in H.
+    apply andb_true_iff in H as [H _]. exact H.
+  - apply Forall_forall. intros f Hf Hd. specialize (H f Hf). unfold rfield_ok in H.
+    apply andb_true_iff in H as [_ H]. rewrite Hd in H. exact H.
+Qed.
+
+Lemma defers_props f :
+  defers f = true -> full_range f = true /\ is_removed f = false /\ is_ignored f = false.
+Proof.
+  unfold defers, deferrable.
+  destruct (full_range f), (is_removed f), (is_ignored f); cbn [andb negb]; try discriminate; auto.
+Qed.
+
+Lemma ndefer_cons f fs : ndefer (f :: fs) = ((if defers f then 1 else 0) + ndefer fs)%nat.
+Proof. unfold ndefer. cbn [filter]. destruct (defers f); reflexivity. Qed.
+
+Lemma full_range_normal v f :
+  wf_fd f = true -> full_range f = true -> is_ignored f = false ->
+  fd_kind f = FNormal /\ present v f = true.
+Proof.
+  unfold wf_fd, full_range, is_ignored, present, in_range. intros Hw Hf Hi.
+  apply andb_true_iff in Hw as [_ Hk]. apply andb_true_iff in Hf as [Hf0 Hft].
+  apply N.eqb_eq in Hf0. rewrite Hf0.
+  destruct (fd_to f); [discriminate|]. destruct (fd_kind f); try discriminate.
+  split; [reflexivity|]. rewrite andb_true_r. apply N.leb_le. lia.
+Qed.
+
+Fixpoint adjb (g : list (N * N * res img)) : bool :=
+  match g with
+  | (sa, oa, _) :: (((sb, ob, _) :: _) as rest) => (oa + sa =? ob) && adjb rest
+  | _ => true
+  end.
+
+Lemma realize_cons2 whole s0 o0 r0 p2 rest :
+  realize whole ((s0, o0, r0) :: p2 :: rest) =
+  if adjb ((s0, o0, r0) :: p2 :: rest) then
+    match whole, last ((s0, o0, r0) :: p2 :: rest) (s0, o0, Ok []) with
+    | Some m, (sl, ol, _) => Ok (slice m o0 (ol + sl))
+    | None, _ => Err EOther
+    end
+  else concat_img (map (fun p => snd p) ((s0, o0, r0) :: p2 :: rest)).
+Proof. reflexivity. Qed.
+
+Lemma concat_img_cons r l :
+  concat_img (r :: l) = let* a := r in let* b := concat_img l in Ok (a ++ b).
+Proof. reflexivity. Qed.
+
+Definition gfact (p : N * N * res img) (b : bytes) : Prop := snd p = Ok (somes b).
+Definition RB (M : img) (o s : N) (b : bytes) : Prop :=
+  length b = N.to_nat s /\ rd M (N.to_nat o) (N.to_nat s) = somes b.
+Definition grb (M : img) (p : N * N * res img) (b : bytes) : Prop := RB M (snd (fst p)) (fst (fst p)) b.
+
+Lemma concat_img_gfact grp bs :
+  Forall2 gfact grp bs -> concat_img (map (fun p => snd p) grp) = Ok (somes (concat bs)).
+Proof.
+  induction 1 as [|p b grp bs Hp _ IH]; [reflexivity|].
+  cbn [map concat]. rewrite concat_img_cons. unfold gfact in Hp. rewrite Hp, IH. cbn [bind].
+  rewrite somes_app. reflexivity.
+Qed.
+
+Lemma concat_img_sound {X} (E : X -> res bytes) (Im : X -> res img) l :
+  (forall y, In y l -> forall b, E y = Ok b -> Im y = Ok (somes b)) ->
+  forall B, concat_res (map E l) = Ok B -> concat_img (map Im l) = Ok (somes B).
+Proof.
+  induction l as [|y l IH]; intros H B HB; cbn [map concat_res] in *.
+  - inversion HB; reflexivity.
+  - apply bind_ok in HB as (a & Ha & HB). apply bind_ok in HB as (r & Hr & HB). inversion HB; subst.
+    rewrite concat_img_cons. rewrite (H y (or_introl eq_refl) a Ha).
+    rewrite (IH (fun z Hz => H z (or_intror Hz)) r Hr). cbn [bind].
+    rewrite somes_app. reflexivity.
+Qed.
+
+Lemma adj_slice M d : forall grp bs,
+  Forall2 (grb M) grp bs -> adjb grp = true -> grp <> [] ->
+  (N.to_nat (snd (fst (last grp d)) + fst (fst (last grp d)))
+   = N.to_nat (snd (fst (hd d grp))) + length (concat bs))%nat
+  /\ rd M (N.to_nat (snd (fst (hd d grp)))) (length (concat bs)) = somes (concat bs).
+Proof.
+  induction 1 as [|p b grp bs Hp Hrest IH]; intros Hadj Hne; [congruence|].
+  destruct p as [[s o] r]. unfold grb, RB in Hp. cbn [fst snd] in Hp. destruct Hp as [Hl Hrd].
+  destruct grp as [|p2 grp].
+  - inversion Hrest; subst. cbn [last hd fst snd concat]. rewrite app_nil_r, Hl.
+    split; [lia|exact Hrd].
+  - destruct p2 as [[s2 o2] r2]. cbn [adjb] in Hadj. apply andb_true_iff in Hadj as [Ho Hadj].
+    apply N.eqb_eq in Ho. destruct (IH Hadj ltac:(discriminate)) as [IH1 IH2].
+    change (last ((s, o, r) :: (s2, o2, r2) :: grp) d) with (last ((s2, o2, r2) :: grp) d).
+    cbn [hd fst snd] in *. cbn [concat]. rewrite app_length, somes_app, rd_split.
+    rewrite Hl, Hrd. replace (N.to_nat o + N.to_nat s)%nat with (N.to_nat o2) by lia.
+    rewrite IH2. split; [lia|reflexivity].
+Qed.
+
+Section FW.
+Variable v : N.
+Variable whole : option img.
+
+Lemma realize_ok grp bs :
+  Forall2 gfact grp bs ->
+  ((exists M, whole = Some M /\ Forall2 (grb M) grp bs) \/ (length grp <= 1)%nat) ->
+  realize whole grp = Ok (somes (concat bs)).
+Proof.
+  intros HG Hmode. destruct grp as [|[[s0 o0] r0] [|p2 rest]].
+  - inversion HG; subst. reflexivity.
+  - inversion HG as [|? b ? bs' Hb Hr]; subst. inversion Hr; subst.
+    unfold gfact in Hb. cbn [snd] in Hb. cbn [concat]. rewrite app_nil_r. exact Hb.
+  - destruct Hmode as [(M & HM & HR)|Hlen]; [|cbn [length] in Hlen; lia].
+    rewrite realize_cons2. destruct (adjb ((s0, o0, r0) :: p2 :: rest)) eqn:Hadj.
+    + rewrite HM.
+      destruct (adj_slice M (s0, o0, Ok []) _ _ HR Hadj ltac:(discriminate)) as [H1 H2].
+      destruct (last ((s0, o0, r0) :: p2 :: rest) (s0, o0, Ok [])) as [[sl ol] rl].
+      cbn [hd fst snd] in H1, H2. unfold slice.
+      replace (N.to_nat (ol + sl) - N.to_nat o0)%nat with (length (concat bs)) by lia.
+      f_equal. exact H2.
+    + apply concat_img_gfact. exact HG.
+Qed.
+
+Definition gitems (g : option (N * list (N * N * res img))) : list (N * N * res img) :=
+  match g with Some (_, items) => items | None => [] end.
+
+Fixpoint FFs (M : img) (fs : list fdef) (offs : list N) (xs : list val) : Prop :=
+  match fs, offs, xs with
+  | f :: rf, o :: ro, y :: ry =>
+      (defers f = true -> forall b, enc v (fd_ty f) y = Ok b -> RB M o (fsize f) b)
+      /\ FFs M rf ro ry
+  | _, _, _ => True
+  end.
+
+Definition mode (grp : list (N * N * res img)) (bs : list bytes)
+           (fs : list fdef) (offs : list N) (xs : list val) : Prop :=
+  (exists M, whole = Some M /\ Forall2 (grb M) grp bs /\ FFs M fs offs xs)
+  \/ (length grp + ndefer fs <= 1)%nat.
+
+Lemma mode_flush grp bs fs offs xs :
+  mode grp bs fs offs xs ->
+  (exists M, whole = Some M /\ Forall2 (grb M) grp bs) \/ (length grp <= 1)%nat.
+Proof. intros [(M & H1 & H2 & _)|H]; [left; eauto|right; lia]. Qed.
+
+Lemma mode_tail_none grp bs f fs o ro y ry :
+  mode grp bs (f :: fs) (o :: ro) (y :: ry) -> mode [] [] fs ro ry.
+Proof.
+  intros [(M & H1 & _ & H3)|H].
+  - left. exists M. cbn [FFs] in H3. destruct H3 as [_ H3]. repeat split; [exact H1|constructor|exact H3].
+  - right. rewrite ndefer_cons in H. cbn [length]. lia.
+Qed.
+
+Lemma mode_skip grp bs f fs o ro y ry :
+  defers f = false -> mode grp bs (f :: fs) (o :: ro) (y :: ry) -> mode grp bs fs ro ry.
+Proof.
+  intros Hd [(M & H1 & H2 & H3)|H].
+  - left. exists M. cbn [FFs] in H3. destruct H3 as [_ H3]. auto.
+  - right. rewrite ndefer_cons, Hd in H. lia.
+Qed.
+
+Lemma mode_push grp bs f fs o ro y ry a r :
+  defers f = true -> enc v (fd_ty f) y = Ok a ->
+  mode grp bs (f :: fs) (o :: ro) (y :: ry) ->
+  mode (grp ++ [(fsize f, o, r)]) (bs ++ [a]) fs ro ry.
+Proof.
+  intros Hd Ha [(M & H1 & H2 & H3)|H].
+  - left. exists M. cbn [FFs] in H3. destruct H3 as [H3 H4]. repeat split; [exact H1| |exact H4].
+    apply Forall2_app; [exact H2|]. constructor; [|constructor].
+    unfold grb. cbn [fst snd]. apply (H3 Hd a Ha).
+  - right. rewrite ndefer_cons, Hd in H. rewrite app_length. cbn [length]. lia.
+Qed.
+
+Lemma flush_ok grp bs fs offs xs :
+  Forall2 gfact (rev (gitems grp)) bs -> mode (rev (gitems grp)) bs fs offs xs ->
+  flushg whole grp = Ok (somes (concat bs)).
+Proof.
+  intros HG Hm. apply mode_flush in Hm. destruct grp as [[ga items]|]; cbn [gitems flushg] in *.
+  - apply realize_ok; assumption.
+  - inversion HG; subst. reflexivity.
+Qed.
+
+Lemma cur_ok f y a :
+  IMPL v (fd_ty f) -> fhyp v f -> hf has_ty f y = true -> is_ignored f = false ->
+  efield v (enc v) f y = Ok a ->
+  (if present v f then
+     match fd_kind f with
+     | FRemoved => Panic
+     | FAbiRemoved => impl_enc v (fd_ty f) (fd_default f)
+     | _ => impl_enc v (fd_ty f) y
+     end
+   else Ok []) = Ok (somes a).
+Proof.
+  intros HI (Hwf & Hz & Hrg & Hwl & Hnm) Hh Hi He.
+  assert (Hwt : wf_ty (fd_ty f) = true).
+  { unfold wf_fd in Hwf. apply andb_true_iff in Hwf as [Hwf _]. apply andb_true_iff in Hwf as [Hwf _]. exact Hwf. }
+  unfold hf, efield, is_removed, is_ignored in *.
+  destruct (present v f); destruct (fd_kind f); try discriminate;
+    try (inversion He; subst; reflexivity);
+    apply andb_true_iff in Hh as [Hh1 Hh2].
+  - apply (HI y a Hwt Hz Hrg Hwl Hnm Hh1 He).
+  - apply (HI _ a Hwt Hz Hrg Hwl Hnm Hh2 He).
+Qed.
+
+Lemma fw_ok fs :
+  Pfs (IMPL v) fs -> Forall (fhyp v) fs ->
+  forall offs xs grp bs B,
+  length offs = length fs ->
+  hflds has_ty fs xs = true -> eflds v (enc v) fs xs = Ok B ->
+  Forall2 gfact (rev (gitems grp)) bs ->
+  mode (rev (gitems grp)) bs fs offs xs ->
+  fwg v (impl_enc v) whole fs offs xs grp = Ok (somes (concat bs ++ B)).
+Proof.
+  induction fs as [|f fs IH]; intros HP HF offs xs grp bs B Hlen Hh He HG Hm.
+  - destruct xs; cbn [hflds] in Hh; try discriminate. cbn [eflds] in He. inversion He; subst.
+    cbn [fwg]. rewrite app_nil_r. apply (flush_ok grp bs [] offs []); assumption.
+  - destruct xs as [|y ry]; cbn [hflds] in Hh; try discriminate.
+    destruct offs as [|o ro]; cbn [length] in Hlen; try discriminate.
+    inversion HP as [|? ? HP1 HP2]; subst. inversion HF as [|? ? HF1 HF2]; subst.
+    apply andb_true_iff in Hh as [Hh1 Hh2].
+    cbn [eflds] in He. apply bind_ok in He as (a & Ha & He). apply bind_ok in He as (B' & HB' & He).
+    inversion He; subst B.
+    assert (Hlen' : length ro = length fs) by lia.
+    pose proof (fun g b Hg Hmo => IH HP2 HF2 ro ry g b B' Hlen' Hh2 HB' Hg Hmo) as IH'.
+    assert (Hrest : fwg v (impl_enc v) whole fs ro ry None = Ok (somes B')).
+    { apply (IH' None []); [constructor|]. apply (mode_tail_none _ _ _ _ _ _ _ _ Hm). }
+    pose proof (flush_ok grp bs _ _ _ HG Hm) as Hflush.
+    cbn [fwg]. destruct (is_ignored f) eqn:Hi.
+    { (* ignored: skipped by both *)
+      assert (a = []).
+      { unfold efield, is_ignored in *. destruct (fd_kind f); try discriminate. inversion Ha; reflexivity. }
+      subst a. cbn [app]. apply IH'; [exact HG|].
+      apply (mode_skip _ _ f _ o _ y); [|exact Hm].
+      destruct (defers f) eqn:Hd; [|reflexivity]. apply defers_props in Hd as (_ & _ & Hd). congruence. }
+    destruct (full_range f) eqn:Hfr.
+    + destruct HF1 as (Hwf & Hz & Hrg & Hwl & Hnm).
+      destruct (full_range_normal v f Hwf Hfr Hi) as [Hk Hpr].
+      assert (Hwt : wf_ty (fd_ty f) = true).
+      { unfold wf_fd in Hwf. apply andb_true_iff in Hwf as [Hwf _]. apply andb_true_iff in Hwf as [Hwf _]. exact Hwf. }
+      unfold efield in Ha. rewrite Hk, Hpr in Ha.
+      unfold hf, is_removed in Hh1. rewrite Hk in Hh1. apply andb_true_iff in Hh1 as [Hh1 _].
+      pose proof (HP1 y a Hwt Hz Hrg Hwl Hnm Hh1 Ha) as Hcur.
+      assert (Hfl : (let* pre := flushg whole grp in let* cur := impl_enc v (fd_ty f) y in
+                     let* rest := fwg v (impl_enc v) whole fs ro ry None in Ok (pre ++ cur ++ rest))
+                    = Ok (somes (concat bs ++ a ++ B'))).
+      { rewrite Hflush, Hcur, Hrest. cbn [bind]. rewrite !somes_app. reflexivity. }
+      assert (Hpush : fwg v (impl_enc v) whole fs ro ry
+                        (Some (match grp with Some (ga, _) => ga | None => 0 end,
+                               (fsize f, o, impl_enc v (fd_ty f) y) :: gitems grp))
+                      = Ok (somes (concat bs ++ a ++ B')) \/ defers f = false).
+      { destruct (defers f) eqn:Hd; [left|right; reflexivity].
+        rewrite (IH' _ (bs ++ [a])).
+        - rewrite concat_app. cbn [concat]. rewrite app_nil_r, <- app_assoc. reflexivity.
+        - cbn [gitems rev]. apply Forall2_app; [exact HG|]. constructor; [exact Hcur|constructor].
+        - cbn [gitems rev]. apply (mode_push _ _ f _ o _ y _ a); assumption. }
+      destruct (deferrable f) as [al|] eqn:Ed.
+      * assert (Hd : defers f = true) by (unfold defers; rewrite Ed; reflexivity).
+        destruct Hpush as [Hpush|Hc]; [|congruence].
+        destruct grp as [[ga items]|].
+        -- destruct (ga =? al); [exact Hpush|exact Hfl].
+        -- cbn [gitems] in Hpush.
+           assert (bs = []) by (cbn [gitems rev] in HG; inversion HG; reflexivity). subst bs.
+           cbn [gitems rev app] in *.
+           rewrite (IH' (Some (al, [(fsize f, o, impl_enc v (fd_ty f) y)])) [a]).
+           ++ cbn [concat app]. rewrite app_nil_r. reflexivity.
+           ++ cbn [gitems rev app]. constructor; [exact Hcur|constructor].
+           ++ cbn [gitems rev app]. apply (mode_push [] [] f _ o _ y _ a); assumption.
+      * destruct grp as [[ga items]|]; exact Hfl.
+    + (* not full range: never deferred *)
+      rewrite Hflush. rewrite (cur_ok f y a HP1 HF1 Hh1 Hi Ha). rewrite Hrest. cbn [bind].
+      rewrite !somes_app. reflexivity.
+Qed.
+End FW.
+
+(* facts about deferrable fields read back from the aggregate's image *)
+Lemma FFs_intro v M fs :
+  Forall (fhyp v) fs -> Forall (fun f => defers f = true -> packed v (fd_ty f) = true) fs ->
+  forall offs xs its,
+  hflds has_ty fs xs = true -> mitems mem fs offs xs = Some its ->
+  Forall (fun p => rd M (N.to_nat (it_off p)) (length (it_img p)) = it_img p) its ->
+  FFs v M fs offs xs.
+Proof.
+  induction fs as [|f fs IH]; intros HF HD offs xs its Hh Hi HR; [destruct offs, xs; exact I|].
+  destruct offs as [|o ro]; [exact I|]. destruct xs as [|y ry]; [exact I|].
+  inversion HF as [|? ? HF1 HF2]; subst. inversion HD as [|? ? HD1 HD2]; subst.
+  cbn [hflds] in Hh. apply andb_true_iff in Hh as [Hh1 Hh2].
+  cbn [mitems] in Hi. cbn [FFs]. destruct (is_removed f) eqn:Er.
+  - split; [|apply (IH HF2 HD2 ro ry its Hh2 Hi HR)].
+    intros Hd. apply defers_props in Hd as (_ & Hd & _). congruence.
+  - destruct (mem (fd_ty f) y) as [m|] eqn:Hm; [|discriminate].
+    destruct (mitems mem fs ro ry) as [r|] eqn:Hr; [|discriminate].
+    inversion Hi; subst its. inversion HR as [|? ? HR1 HR2]; subst.
+    split; [|apply (IH HF2 HD2 ro ry r Hh2 Hr HR2)].
+    intros Hd b Hb. specialize (HD1 Hd).
+    destruct HF1 as (Hwf & Hz & Hrg & Hwl & Hnm).
+    assert (Hwt : wf_ty (fd_ty f) = true).
+    { unfold wf_fd in Hwf. apply andb_true_iff in Hwf as [Hwf _]. apply andb_true_iff in Hwf as [Hwf _]. exact Hwf. }
+    unfold hf in Hh1. rewrite Er in Hh1. apply andb_true_iff in Hh1 as [Hh1 _].
+    pose proof (packed_sound v _ y b HD1 Hwt Hz Hwl Hnm Hh1 Hb) as Hm'.
+    rewrite Hm in Hm'. inversion Hm'; subst m.
+    pose proof (mem_length_packed v _ y _ HD1 Hwl Hnm Hh1 Hm) as Hlm.
+    unfold it_off, it_img in HR1. cbn [fst snd] in HR1.
+    unfold RB, fsize. rewrite Er. rewrite somes_length in Hlm. split; [exact Hlm|].
+    rewrite <- Hlm. rewrite somes_length in HR1. exact HR1.
+Qed.
+
+Lemma itup_ok v ts :
+  Forall (IMPL v) ts -> forallb wf_ty ts = true -> forallb empty_struct_zst ts = true ->
+  forallb (regions_ok v) ts = true -> forallb wf_layout ts = true -> forallb no_mixed_enum ts = true ->
+  forall xs B, htup has_ty ts xs = true -> etup (enc v) ts xs = Ok B ->
+  itup (impl_enc v) ts xs = Ok (somes B).
+Proof.
+  induction 1 as [|t ts Ht _ IH]; intros Hwt Hz Hrg Hwl Hnm [|y ry] B Hh He; cbn [htup] in Hh; try discriminate.
+  - cbn [etup] in He. inversion He; reflexivity.
+  - cbn [forallb] in *.
+    apply andb_true_iff in Hwt as [Hwt1 Hwt2]. apply andb_true_iff in Hz as [Hz1 Hz2].
+    apply andb_true_iff in Hrg as [Hrg1 Hrg2].
+    apply andb_true_iff in Hwl as [Hwl1 Hwl2]. apply andb_true_iff in Hnm as [Hnm1 Hnm2].
+    apply andb_true_iff in Hh as [Hh1 Hh2].
+    cbn [etup] in He. apply bind_ok in He as (a & Ha & He). apply bind_ok in He as (B' & HB' & He).
+    inversion He; subst. cbn [itup].
+    rewrite (Ht y a Hwt1 Hz1 Hrg1 Hwl1 Hnm1 Hh1 Ha). rewrite (IH Hwt2 Hz2 Hrg2 Hwl2 Hnm2 ry B' Hh2 HB').
+    cbn [bind]. rewrite somes_app. reflexivity.
+Qed.
+
+Lemma last_indep {A} (l : list A) a d d' : last (a :: l) d = last (a :: l) d'.
+Proof.
+  revert a; induction l as [|x l IH]; intros a; [reflexivity|].
+  change (last (a :: x :: l) d) with (last (x :: l) d).
+  change (last (a :: x :: l) d') with (last (x :: l) d'). apply IH.
+Qed.
+
+Lemma last_map {A B} (g : A -> B) l a d : last (map g (a :: l)) d = g (last (a :: l) a).
+Proof.
+  revert a; induction l as [|x l IH]; intros a; [reflexivity|].
+  change (last (map g (a :: x :: l)) d) with (last (map g (x :: l)) d).
+  change (last (a :: x :: l) a) with (last (x :: l) a).
+  rewrite IH. f_equal. apply last_indep.
+Qed.
+
+Lemma slice_all m total : length m = N.to_nat total -> slice m 0 total = m.
+Proof.
+  intros H. unfold slice. change (N.to_nat 0) with 0%nat. rewrite Nat.sub_0_r. cbn [skipn].
+  apply firstn_all2. lia.
+Qed.
+
+Lemma slice_tail (a b : img) w total :
+  length a = N.to_nat w -> (length a + length b)%nat = N.to_nat total -> slice (a ++ b) w total = b.
+Proof.
+  intros H1 H2. unfold slice. rewrite skipn_app, skipn_all2 by lia.
+  replace (N.to_nat w - length a)%nat with 0%nat by lia. cbn [skipn app]. apply firstn_all2. lia.
+Qed.
+
+Lemma whole_region_chain m total p f0 fs o0 ro :
+  variant_chain total p (o0 :: ro) (map fsize (f0 :: fs)) = true ->
+  whole_region (Some m) (f0 :: fs) (o0 :: ro) = Ok (slice m p total).
+Proof.
+  intros H.
+  destruct (variant_chain_ends total (o0 :: ro) (map fsize (f0 :: fs)) p o0 ro (fsize f0) (map fsize fs)
+              eq_refl eq_refl H) as [E1 E2].
+  rewrite last_map in E2. unfold whole_region. rewrite E2, E1. reflexivity.
+Qed.
+
+Lemma wf_fd_ty f : wf_fd f = true -> wf_ty (fd_ty f) = true.
+Proof.
+  unfold wf_fd. intros H. apply andb_true_iff in H as [H _]. apply andb_true_iff in H as [H _]. exact H.
+Qed.
+
+Lemma impl_prim v t x :
+  match t with
+  | TInt _ | TBool | TChar | TF32 | TF64 | TUnit | TString => True
+  | _ => False
+  end -> impl_enc v t x = lift_enc (enc v t x).
+Proof. destruct t; intros H; try contradiction; reflexivity. Qed.
+
+Lemma Ok_inj {A} (a b : A) : Ok a = Ok b -> a = b.
+Proof. intros H; inversion H; reflexivity. Qed.
+
+Lemma impl_all v t : IMPL v t.
+Proof.
+  induction t using ty_ind'; intros x b Hwt Hz Hrg Hwl Hnm Hh He.
+  - rewrite impl_prim by exact I. rewrite He. reflexivity.
+  - rewrite impl_prim by exact I. rewrite He. reflexivity.
+  - rewrite impl_prim by exact I. rewrite He. reflexivity.
+  - rewrite impl_prim by exact I. rewrite He. reflexivity.
+  - rewrite impl_prim by exact I. rewrite He. reflexivity.
+  - rewrite impl_prim by exact I. rewrite He. reflexivity.
+  - rewrite impl_prim by exact I. rewrite He. reflexivity.
+  - (* TVec *)
+    destruct x; try discriminate. rewrite has_ty_TVec in Hh.
+    apply andb_true_iff in Hh as [_ H2]. rewrite forallb_forall in H2.
+    rewrite enc_TVec in He. apply bind_ok in He as (body & Hbody & He). apply Ok_inj in He. subst b.
+    rewrite impl_TVec. destruct (packed v t) eqn:Hpk.
+    + assert (Hc : concat_opt (map (mem t) l) = Some (somes body)).
+      { apply (concat_map_sound (enc v t)); [|exact Hbody].
+        intros y Hy b' Hb'. apply (packed_sound v t y b' Hpk Hwt Hz Hwl Hnm (H2 y Hy) Hb'). }
+      rewrite Hc. cbn [bind]. rewrite somes_app. reflexivity.
+    + assert (Hc : concat_img (map (impl_enc v t) l) = Ok (somes body)).
+      { apply (concat_img_sound (enc v t)); [|exact Hbody].
+        intros y Hy b' Hb'. apply (IHt y b' Hwt Hz Hrg Hwl Hnm (H2 y Hy) Hb'). }
+      rewrite Hc. cbn [bind]. rewrite somes_app. reflexivity.
+  - (* TSeq *)
+    destruct x; try discriminate. rewrite has_ty_TSeq in Hh.
+    apply andb_true_iff in Hh as [_ H2]. rewrite forallb_forall in H2.
+    rewrite enc_TSeq in He. apply bind_ok in He as (body & Hbody & He). apply Ok_inj in He. subst b.
+    rewrite impl_TSeq.
+    assert (Hc : concat_img (map (impl_enc v t) l) = Ok (somes body)).
+    { apply (concat_img_sound (enc v t)); [|exact Hbody].
+      intros y Hy b' Hb'. apply (IHt y b' Hwt Hz Hrg Hwl Hnm (H2 y Hy) Hb'). }
+    rewrite Hc. cbn [bind]. rewrite somes_app. reflexivity.
+  - (* TArray *)
+    destruct x; try discriminate. rewrite has_ty_TArray in Hh.
+    apply andb_true_iff in Hh as [H1 H2]. apply N.eqb_eq in H1. rewrite forallb_forall in H2.
+    rewrite enc_TArray in He.
+    change (wf_ty (TArray t n)) with (wf_ty t && (n <? 100000)) in Hwt.
+    apply andb_true_iff in Hwt as [Hwt _].
+    rewrite impl_TArray. destruct (N.eqb_spec n 0) as [E|NE].
+    + rewrite E in H1. destruct l; [|cbn [length] in H1; lia]. cbn [map concat_res] in He.
+      inversion He; reflexivity.
+    + destruct (packed v t) eqn:Hpk.
+      * assert (Hc : concat_opt (map (mem t) l) = Some (somes b)).
+        { apply (concat_map_sound (enc v t)); [|exact He].
+          intros y Hy b' Hb'. apply (packed_sound v t y b' Hpk Hwt Hz Hwl Hnm (H2 y Hy) Hb'). }
+        rewrite Hc. reflexivity.
+      * apply (concat_img_sound (enc v t) (impl_enc v t) l); [|exact He].
+        intros y Hy b' Hb'. apply (IHt y b' Hwt Hz Hrg Hwl Hnm (H2 y Hy) Hb').
+  - (* TOption *)
+    destruct x; try discriminate.
+    + rewrite enc_TOption_none in He. inversion He; reflexivity.
+    + rewrite has_ty_TOption_some in Hh. rewrite enc_TOption_some in He.
+      apply bind_ok in He as (a & Ha & He). apply Ok_inj in He. subst b.
+      rewrite impl_TOption_some, (IHt x a Hwt Hz Hrg Hwl Hnm Hh Ha). reflexivity.
+  - (* TResult *)
+    change (wf_ty (TResult t1 t2)) with (wf_ty t1 && wf_ty t2) in Hwt.
+    change (empty_struct_zst (TResult t1 t2)) with (empty_struct_zst t1 && empty_struct_zst t2) in Hz.
+    change (regions_ok v (TResult t1 t2)) with (regions_ok v t1 && regions_ok v t2) in Hrg.
+    change (wf_layout (TResult t1 t2)) with (wf_layout t1 && wf_layout t2) in Hwl.
+    change (no_mixed_enum (TResult t1 t2)) with (no_mixed_enum t1 && no_mixed_enum t2) in Hnm.
+    apply andb_true_iff in Hwt as [Hwt1 Hwt2]. apply andb_true_iff in Hz as [Hz1 Hz2].
+    apply andb_true_iff in Hrg as [Hrg1 Hrg2].
+    apply andb_true_iff in Hwl as [Hwl1 Hwl2]. apply andb_true_iff in Hnm as [Hnm1 Hnm2].
+    destruct x; try discriminate.
+    + rewrite has_ty_TResult_ok in Hh. rewrite enc_TResult_ok in He.
+      apply bind_ok in He as (a & Ha & He). apply Ok_inj in He. subst b.
+      rewrite impl_TResult_ok, (IHt1 x a Hwt1 Hz1 Hrg1 Hwl1 Hnm1 Hh Ha). reflexivity.
+    + rewrite has_ty_TResult_err in Hh. rewrite enc_TResult_err in He.
+      apply bind_ok in He as (a & Ha & He). apply Ok_inj in He. subst b.
+      rewrite impl_TResult_err, (IHt2 x a Hwt2 Hz2 Hrg2 Hwl2 Hnm2 Hh Ha). reflexivity.
+  - (* TBox *)
+    rewrite has_ty_TBox in Hh. rewrite enc_TBox in He. rewrite impl_TBox.
+    apply (IHt x b Hwt Hz Hrg Hwl Hnm Hh He).
+  - (* TCell *)
+    rewrite has_ty_TCell in Hh. rewrite enc_TCell in He. rewrite impl_TCell.
+    apply (IHt x b Hwt Hz Hrg Hwl Hnm Hh He).
+  - (* TTuple *)
+    destruct x; try discriminate. rewrite has_ty_TTuple in Hh. rewrite enc_TTuple in He.
+    rewrite wf_ty_TTuple in Hwt. rewrite zst_TTuple in Hz. rewrite regions_TTuple in Hrg.
+    rewrite wf_layout_TTuple in Hwl. rewrite no_mixed_TTuple in Hnm.
+    apply andb_true_iff in Hwt as [Hwt _]. apply andb_true_iff in Hwt as [Hwt _].
+    apply andb_true_iff in Hwl as [Hwl _]. apply andb_true_iff in Hwl as [Hwl _].
+    rewrite impl_TTuple. apply (itup_ok v ts H Hwt Hz Hrg Hwl Hnm l0 b Hh He).
+  - (* TStruct *)
+    destruct x; try discriminate.
+    pose proof Hh as Hh0. pose proof He as He0.
+    rewrite has_ty_TStruct in Hh. rewrite enc_TStruct in He.
+    pose proof Hwt as Hwt'. rewrite wf_ty_TStruct in Hwt'.
+    pose proof Hz as Hz'. rewrite zst_TStruct in Hz'. apply andb_true_iff in Hz' as [Hz' _].
+    pose proof Hrg as Hrg'. rewrite regions_TStruct in Hrg'. apply rfield_split in Hrg' as [Hrg' HD].
+    pose proof Hwl as Hwl'. rewrite wf_layout_TStruct in Hwl'.
+    apply andb_true_iff in Hwl' as [Hwl' Hr]. apply andb_true_iff in Hwl' as [Hwl' Hlen].
+    apply Nat.eqb_eq in Hlen.
+    pose proof Hnm as Hnm'. rewrite no_mixed_TStruct in Hnm'.
+    rewrite impl_TStruct. destruct (packed v (TStruct l fs)) eqn:Hpk.
+    + (* packed: whole-struct raw write *)
+      pose proof (packed_sound v _ _ b Hpk Hwt Hz Hwl Hnm Hh0 He0) as Hm.
+      pose proof (mem_length_packed v _ _ _ Hpk Hwl Hnm Hh0 Hm) as Hlm. cbn [size_of] in Hlm.
+      rewrite Hm. destruct fs as [|f0 fs].
+      * destruct l0; cbn [hflds] in Hh; try discriminate. cbn [eflds] in He. inversion He; reflexivity.
+      * destruct (l_offs l) as [|o0 ro] eqn:Eo; [cbn [length] in Hlen; discriminate|].
+        rewrite packed_TStruct in Hpk.
+        apply andb_true_iff in Hpk as [Hpk _]. apply andb_true_iff in Hpk as [Hpk _].
+        apply andb_true_iff in Hpk as [_ Hchain]. rewrite Eo in Hchain.
+        destruct (struct_chain_variant _ _ _ _ Hchain) as [Hvc _].
+        rewrite (whole_region_chain _ _ _ _ _ _ _ Hvc). rewrite slice_all by exact Hlm. reflexivity.
+    + (* field-wise with deferred regions *)
+      assert (HS : Pfs SHAPE fs) by (apply Forall_forall; intros; apply shape_all).
+      destruct (mflds_shape fs (l_size l) 0 HS Hwl' (l_offs l) l0 (repeat None (N.to_nat (l_size l)))
+                  Hlen Hh Hr (repeat_length _ _)) as (its & Hi & Hm & Hl & Hinb & Hpw).
+      pose proof (blits_readback (l_size l) (repeat None (N.to_nat (l_size l))) its (repeat_length _ _) Hinb Hpw) as HRB.
+      pose proof (fhyp_intro v fs Hwt' Hz' Hrg' Hwl' Hnm') as HF.
+      rewrite mem_TStruct, Hm.
+      rewrite (fw_ok v _ fs H HF (l_offs l) l0 None [] b Hlen Hh He); [reflexivity|constructor|].
+      left. eexists. split; [reflexivity|]. split; [constructor|].
+      apply (FFs_intro v _ fs HF HD (l_offs l) l0 its Hh Hi HRB).
+  - (* TEnum *)
+    destruct x; try discriminate.
+    pose proof Hh as Hh0. rewrite has_ty_TEnum in Hh. apply andb_true_iff in Hh as [_ Hh].
+    pose proof He as He0. rewrite enc_TEnum in He. rewrite pickg_nth in Hh, He.
+    destruct (nth_error vs (N.to_nat idx)) as [vd|] eqn:Hn; [|discriminate].
+    pose proof (nth_error_In _ _ Hn) as Hin.
+    pose proof Hwl as Hwl'. rewrite wf_layout_TEnum in Hwl'.
+    apply andb_true_iff in Hwl' as [Hwl' Hrr]. apply andb_true_iff in Hwl' as [Hwl' Hlen].
+    apply Nat.eqb_eq in Hlen. rewrite forallb_forall in Hwl'. specialize (Hwl' vd Hin).
+    destruct (nth_error_same_length vs vo _ vd Hlen Hn) as (offs & Ho).
+    pose proof (nth_error_combine _ _ _ _ _ Ho Hn) as Hcomb.
+    pose proof Hwt as Hwt'. rewrite wf_ty_TEnum in Hwt'. apply andb_true_iff in Hwt' as [_ Hwt'].
+    rewrite forallb_forall in Hwt'. specialize (Hwt' vd Hin). apply andb_true_iff in Hwt' as [Hwt' _].
+    pose proof Hz as Hz'. rewrite zst_TEnum in Hz'. rewrite forallb_forall in Hz'. specialize (Hz' vd Hin).
+    pose proof Hnm as Hnm'. rewrite no_mixed_TEnum in Hnm'. apply andb_true_iff in Hnm' as [Hnm' _].
+    rewrite forallb_forall in Hnm'. specialize (Hnm' vd Hin).
+    unfold Pvs in H. rewrite Forall_forall in H. specialize (H vd Hin).
+    rewrite impl_TEnum, pick3_nth, Hn, Ho.
+    destruct (in_range (vd_from vd) (vd_to vd) v); [|discriminate].
+    apply bind_ok in He as (B & HB & He). apply Ok_inj in He. subst b.
+    match goal with |- (let* b := ?inner in _) = _ => assert (Hinner : inner = Ok (somes B)) end.
+    { destruct (packed v (TEnum repr l vo vs)) eqn:Hpk.
+      - (* packed: raw write of the variant's field region *)
+        destruct repr as [w|]; [|discriminate].
+        pose proof (packed_sound v _ _ _ Hpk Hwt Hz Hwl Hnm Hh0 He0) as Hm.
+        pose proof (mem_length_packed v _ _ _ Hpk Hwl Hnm Hh0 Hm) as Hlm. cbn [size_of] in Hlm.
+        rewrite Hm. rewrite packed_TEnum_some in Hpk.
+        apply andb_true_iff in Hpk as [Hpk _]. apply andb_true_iff in Hpk as [Hpk _].
+        apply andb_true_iff in Hpk as [_ Hvc].
+        pose proof (vchains_nth _ _ _ _ _ _ _ Hvc Ho Hn) as Hch.
+        apply andb_true_iff in Hrr as [_ Hrr]. rewrite forallb_forall in Hrr. specialize (Hrr _ Hcomb).
+        cbn [fst snd] in Hrr. apply andb_true_iff in Hrr as [Hl2 _]. apply Nat.eqb_eq in Hl2.
+        destruct (vd_fields vd) as [|f0 fs'] eqn:Ef.
+        + destruct l0; cbn [hflds] in Hh; try discriminate. cbn [eflds] in HB. inversion HB; reflexivity.
+        + destruct Hch as [Hch|Hch]; [discriminate|].
+          destruct offs as [|o0 ro]; [cbn [length] in Hl2; discriminate|].
+          rewrite (whole_region_chain _ _ _ _ _ _ _ Hch). rewrite somes_app in *.
+          rewrite app_length in Hlm.
+          rewrite slice_tail; [reflexivity| |exact Hlm].
+          rewrite somes_length, le_length. reflexivity.
+      - (* field-wise; deferred regions read the modelled image back *)
+        rewrite regions_TEnum in Hrg. rewrite forallb_forall in Hrg. specialize (Hrg vd Hin).
+        apply rfield_split in Hrg as [Hrg' HD].
+        assert (HS : Pfs SHAPE (vd_fields vd)) by (apply Forall_forall; intros; apply shape_all).
+        pose proof (fhyp_intro v _ Hwt' Hz' Hrg' Hwl' Hnm') as HF.
+        destruct repr as [w|].
+        + apply andb_true_iff in Hrr as [Hw Hrr]. rewrite forallb_forall in Hrr. specialize (Hrr _ Hcomb).
+          cbn [fst snd] in Hrr. apply andb_true_iff in Hrr as [Hl2 Hr]. apply Nat.eqb_eq in Hl2.
+          assert (Hwle : w <= l_size l).
+          { destruct (forallb fieldless vs); [apply N.eqb_eq in Hw; lia|apply N.leb_le in Hw; exact Hw]. }
+          assert (Hbuf : length (bufset (repeat None (N.to_nat (l_size l))) 0 (somes (le (N.to_nat w) idx)))
+                         = N.to_nat (l_size l)).
+          { rewrite bufset_length; [apply repeat_length|]. rewrite somes_length, le_length, repeat_length. lia. }
+          destruct (mflds_shape (vd_fields vd) (l_size l) w HS Hwl' offs l0 _ Hl2 Hh Hr Hbuf)
+            as (its & Hi & Hm & Hl & Hinb & Hpw).
+          pose proof (blits_readback (l_size l) _ its Hbuf Hinb Hpw) as HRB.
+          rewrite mem_TEnum_some, pick3_nth, Hn, Ho, Hm.
+          rewrite (fw_ok v _ _ H HF offs l0 None [] B Hl2 Hh HB); [reflexivity|constructor|].
+          left. eexists. split; [reflexivity|]. split; [constructor|].
+          apply (FFs_intro v _ _ HF HD offs l0 its Hh Hi HRB).
+        + rewrite forallb_forall in Hrr. specialize (Hrr _ Hcomb).
+          cbn [fst snd] in Hrr. apply andb_true_iff in Hrr as [Hl2 Hr]. apply Nat.eqb_eq in Hl2.
+          destruct (mflds_shape (vd_fields vd) (l_size l) 0 HS Hwl' offs l0
+                      (repeat None (N.to_nat (l_size l))) Hl2 Hh Hr (repeat_length _ _))
+            as (its & Hi & Hm & Hl & Hinb & Hpw).
+          pose proof (blits_readback (l_size l) (repeat None (N.to_nat (l_size l))) its
+                        (repeat_length _ _) Hinb Hpw) as HRB.
+          rewrite mem_TEnum_none, pick3_nth, Hn, Ho, Hm.
+          rewrite (fw_ok v _ _ H HF offs l0 None [] B Hl2 Hh HB); [reflexivity|constructor|].
+          left. eexists. split; [reflexivity|]. split; [constructor|].
+          apply (FFs_intro v _ _ HF HD offs l0 its Hh Hi HRB). }
+    rewrite Hinner. cbn [bind]. rewrite somes_app. reflexivity.
+Qed.
+
+(* Counterexamples that force the three extra premises of impl_enc_is_enc. Each violates exactly
+   one of them and satisfies every premise of the statement as originally proposed. *)
+Definition prem5 (v : N) (t : ty) :=
+  (wf_ty t, empty_struct_zst t, regions_ok v t, wf_layout t, no_mixed_enum t).
+
+(* wf_ty: an AbiRemoved field with a full version range in a non-packed struct *)
+Lemma impl_enc_counterexample_wf_ty :
+  let t := TStruct (Lay 24 8 [0; 0] false)
+             [FD TString 0 None FNormal VUnit; FD (TInt U8) 0 None FAbiRemoved (VInt 3)] in
+  let x := VRec [VStr []; VUnit] in
+  prem5 0 t = (false, true, true, true, true) /\ has_ty t x = true
+  /\ enc 0 t x = Ok [0; 0; 0; 0; 0; 0; 0; 0; 3] /\ impl_enc 0 t x = Err EOther.
+Proof. repeat split; vm_compute; reflexivity. Qed.
+
+(* empty_struct_zst: a Vec of field-less structs with a non-zero size *)
+Lemma impl_enc_counterexample_empty_struct :
+  let t := TVec (TStruct (Lay 1 1 [] false) []) in
+  let x := VSeq [VRec []] in
+  prem5 0 t = (true, false, true, true, true) /\ has_ty t x = true
+  /\ enc 0 t x = Ok (enc_usize 1) /\ impl_enc 0 t x = Ok (somes (enc_usize 1) ++ [None]).
+Proof. repeat split; vm_compute; reflexivity. Qed.
+
+(* regions_ok: a same-size tuple whose layout is not in declaration order joins a raw region *)
+Lemma impl_enc_counterexample_tuple_region :
+  let tw := TTuple (Lay 2 1 [1; 0] false) [TInt U8; TInt U8] in
+  let t := TStruct (Lay 3 1 [0; 1] false)
+             [FD (TInt U8) 0 None FNormal VUnit; FD tw 0 None FNormal VUnit] in
+  let x := VRec [VInt 7; VRec [VInt 1; VInt 2]] in
+  prem5 0 t = (true, true, false, true, true) /\ has_ty t x = true
+  /\ enc 0 t x = Ok [7; 1; 2] /\ impl_enc 0 t x = Ok [Some 7; Some 2; Some 1].
+Proof. repeat split; vm_compute; reflexivity. Qed.
+
+Lemma impl_enc_is_enc_unrestricted_false :
+  ~ (forall v t x b, wf_layout t = true -> no_mixed_enum t = true ->
+     has_ty t x = true -> enc v t x = Ok b -> impl_enc v t x = Ok (somes b)).
+Proof.
+  intros H. destruct impl_enc_counterexample_tuple_region as (_ & Hh & He & Hi).
+  pose proof (fun A B => H _ _ _ _ A B Hh He) as H'. rewrite Hi in H'.
+  enough (K : Ok [Some 7; Some 2; Some 1] = Ok (somes [7; 1; 2])) by discriminate K.
+  apply H'; vm_compute; reflexivity.
+Qed.
+
+(* 4. transparency: the serializer as implemented writes exactly the documented bytes *)
+Theorem impl_enc_is_enc : forall v t x b,
+  wf_ty t = true -> empty_struct_zst t = true -> regions_ok v t = true ->
+  wf_layout t = true -> no_mixed_enum t = true ->
+  has_ty t x = true -> enc v t x = Ok b -> impl_enc v t x = Ok (somes b).
+Proof. intros v t. apply impl_all. Qed.
+
+Print Assumptions packed_sound_refuted_mixed_enum.
+Print Assumptions mem_length_packed.
+Print Assumptions packed_version_gate.
+Print Assumptions packed_version_gate_counterexample.
+Print Assumptions packed_version_gate_unrestricted_false.
+Print Assumptions packed_sound.
+Print Assumptions packed_sound_counterexample_closed_normal.
+Print Assumptions packed_sound_counterexample_empty_struct.
+Print Assumptions packed_sound_unrestricted_false.
+Print Assumptions impl_enc_is_enc.
+Print Assumptions impl_enc_counterexample_wf_ty.
+Print Assumptions impl_enc_counterexample_empty_struct.
+Print Assumptions impl_enc_counterexample_tuple_region.
+Print Assumptions impl_enc_is_enc_unrestricted_false.
+
+Check packed_sound_refuted_mixed_enum.
+Check mem_length_packed.
+Check packed_version_gate.
+Check packed_sound.
+Check impl_enc_is_enc.
